@@ -21,7 +21,7 @@ RULE = (
     "must appear in exactly the stored modes the wavenumber array names with the documented "
     "magnitude/phase under all three scalings; tensor-product cos/sin fields for coef_extraction; "
     "derivative w.r.t. the coordinate of the same indexing. Non-trivial: k != 0 (plane wave), "
-    "N >= 4 (finite part), state not constant (round trip); distinct = distinct serialised case."
+    "N >= 4 (finite part), state not constant (round trip); distinct = distinct serialised case. Large-N sub-checks: every N <= 300 in 1D (arrays, masks at selected cut-offs) and selected 2D/3D sizes, exhaustive."
 )
 ASSUMPTIONS = [
     "float64 session (jax_enable_x64)",
